@@ -23,6 +23,8 @@ class VClock:
     def sleep(self, secs):
         if not self.active:
             return _real_sleep(secs)
+        if secs < 0:
+            raise ValueError("sleep length must be non-negative")      # as time.sleep does
         t = to_ticks(secs)
         self.sleeps.append(t)
         self.ticks += t
